@@ -400,3 +400,196 @@ def check_dead_params(res, prop, rule, fns, what):
         for p in dead:
             res.add(mk_finding(prop, rule, fn, fn.node, f"{fn.qualname}: the parameter `{p}` cannot influence {what} (it is only checked, or stored in a name nothing reads); the documented effect of that argument is silently dropped", role=f"dead:{p}"))
     return n
+
+
+def optional_number_truthiness(fn_node):
+    """Boolean-context uses (`if p`, `p and ...`, `not p`, `p or d`, `x if p else y`) of a parameter that defaults to None
+    and is used as a number elsewhere in the function (arithmetic, ordering comparison, range()).  Zero is a number too:
+    such a test takes the `None` branch for an admissible 0."""
+    a = fn_node.args
+    params = a.posonlyargs + a.args + a.kwonlyargs
+    defaults = [None] * (len(a.posonlyargs + a.args) - len(a.defaults)) + list(a.defaults) + list(a.kw_defaults)
+    optional = {p.arg for p, d in zip(params, defaults) if isinstance(d, ast.Constant) and d.value is None}
+    if not optional:
+        return
+    numeric = set()
+    for n in ast.walk(fn_node):
+        if isinstance(n, ast.BinOp) and isinstance(n.op, (ast.Add, ast.Sub, ast.Mult, ast.Pow, ast.FloorDiv, ast.Mod)):
+            for side in (n.left, n.right):
+                if isinstance(side, ast.Name) and side.id in optional:
+                    numeric.add(side.id)
+        if isinstance(n, ast.Compare) and any(isinstance(o, (ast.Lt, ast.LtE, ast.Gt, ast.GtE)) for o in n.ops):
+            for side in [n.left] + list(n.comparators):
+                if isinstance(side, ast.Name) and side.id in optional:
+                    numeric.add(side.id)
+        if isinstance(n, ast.Call) and getattr(n.func, "id", None) == "range":
+            for x in n.args:
+                if isinstance(x, ast.Name) and x.id in optional:
+                    numeric.add(x.id)
+    rebound = {t.id for n in ast.walk(fn_node) if isinstance(n, (ast.Assign, ast.AugAssign, ast.AnnAssign)) for tt in (n.targets if isinstance(n, ast.Assign) else [n.target]) for t in ast.walk(tt) if isinstance(t, ast.Name)}
+    numeric -= rebound
+
+    def is_p(e):
+        return isinstance(e, ast.Name) and e.id in numeric
+
+    for n in ast.walk(fn_node):
+        if isinstance(n, (ast.If, ast.While, ast.IfExp)) and (is_p(n.test) or (isinstance(n.test, ast.UnaryOp) and isinstance(n.test.op, ast.Not) and is_p(n.test.operand))):
+            yield n.test
+        elif isinstance(n, ast.BoolOp) and any(is_p(v) or (isinstance(v, ast.UnaryOp) and isinstance(v.op, ast.Not) and is_p(v.operand)) for v in n.values):
+            yield n
+
+
+_UNORDERED_WORDS = ("members", "memberships", "_edge[", "_node[", "neighbors", "_id_dict[", "_bi_id_dict[")
+
+
+def oriented_pairs_from_unordered(fn_node):
+    """`for a, b in combinations(<member set>, 2)` whose two elements are recorded in different slots of an ordered
+    literal (`[f(a), g(b)]`, `(a, b)`): which element comes first is the iteration order of the set - the hash order of
+    the labels - so the recorded orientation changes under relabelling.  (permutations() yields both orientations;
+    a product / frozenset / sum of the two is symmetric.)"""
+    local = {}
+    for st in ast.walk(fn_node):
+        if isinstance(st, ast.Assign) and len(st.targets) == 1 and isinstance(st.targets[0], ast.Name):
+            local.setdefault(st.targets[0].id, []).append(st.value)
+
+    def unordered(e, depth=0):
+        if isinstance(e, ast.Call) and getattr(e.func, "id", None) in ("sorted", "range", "enumerate"):
+            return False
+        if isinstance(e, ast.Call) and getattr(e.func, "id", None) in ("list", "tuple", "set", "frozenset", "iter") and e.args:
+            return unordered(e.args[0], depth + 1)
+        if isinstance(e, ast.Name) and e.id in local and len(local[e.id]) == 1 and depth < 3:
+            return unordered(local[e.id][0], depth + 1)
+        txt = unparse(e, 200)
+        return any(w in txt for w in _UNORDERED_WORDS)
+
+    def oriented(expr, a, b):
+        for lit in ast.walk(expr):
+            if isinstance(lit, (ast.List, ast.Tuple)) and len(lit.elts) >= 2:
+                ia = [i for i, x in enumerate(lit.elts) if any(isinstance(n, ast.Name) and n.id == a for n in ast.walk(x))]
+                ib = [i for i, x in enumerate(lit.elts) if any(isinstance(n, ast.Name) and n.id == b for n in ast.walk(x))]
+                if ia and ib and not set(ia) & set(ib):
+                    return lit
+        return None
+
+    def pair_target(t):
+        return (t.elts[0].id, t.elts[1].id) if isinstance(t, (ast.Tuple, ast.List)) and len(t.elts) == 2 and all(isinstance(x, ast.Name) for x in t.elts) else None
+
+    def is_comb2(it):
+        return isinstance(it, ast.Call) and getattr(it.func, "id", getattr(it.func, "attr", None)) == "combinations" and len(it.args) == 2 and isinstance(it.args[1], ast.Constant) and it.args[1].value == 2 and unordered(it.args[0])
+
+    for n in ast.walk(fn_node):
+        if isinstance(n, (ast.ListComp, ast.SetComp, ast.GeneratorExp)):
+            for g in n.generators:
+                pt = pair_target(g.target)
+                if pt and is_comb2(g.iter):
+                    lit = oriented(n.elt, *pt)
+                    if lit is not None:
+                        yield lit
+        elif isinstance(n, ast.For):
+            pt = pair_target(n.target)
+            if pt and is_comb2(n.iter):
+                for st in n.body:
+                    for c in ast.walk(st):
+                        if isinstance(c, ast.Call) and getattr(c.func, "attr", None) in ("append", "add", "extend") and c.args:
+                            lit = oriented(c.args[0], *pt)
+                            if lit is not None:
+                                # the opposite orientation recorded in the same body makes the pair symmetric
+                                swapped = unparse(lit).replace(pt[0], "\\0").replace(pt[1], pt[0]).replace("\\0", pt[1])
+                                if not any(unparse(x) == swapped for s2 in n.body for x in ast.walk(s2) if isinstance(x, (ast.List, ast.Tuple))):
+                                    yield lit
+
+
+def one_sided_key_domain(fn_node):
+    """Two local maps A and B are filled key by key (possibly in different branches of one loop) and then read jointly
+    - `A[k]` and `B[k]` - inside an iteration over the keys of A alone.  A key that only ever reached B is never
+    visited: whatever was recorded under it is dropped.  Accepted: B is filled only where A is filled under the same
+    key (same statement list), or the iteration runs over the union of the keys."""
+    maps = {}
+    for st in ast.walk(fn_node):
+        if isinstance(st, ast.Assign) and len(st.targets) == 1 and isinstance(st.targets[0], ast.Name):
+            v = st.value
+            if (isinstance(v, ast.Dict) and not v.keys) or (isinstance(v, ast.Call) and getattr(v.func, "id", getattr(v.func, "attr", None)) in ("dict", "defaultdict", "OrderedDict") and not any(isinstance(a, (ast.Name, ast.Call)) and getattr(a, "id", "") not in ("list", "set", "dict", "int") for a in v.args[:1] if not isinstance(a, ast.Name) or a.id not in ("list", "set", "dict", "int", "tuple"))):
+                maps[st.targets[0].id] = st
+    if len(maps) < 2:
+        return
+    # fills: (map, key text, enclosing statement list id)
+    fills = {m: [] for m in maps}
+
+    def scan(body, chain=()):
+        chain = chain + (id(body),)
+        if any(isinstance(x, (ast.Continue, ast.Break)) for st0 in body for x in ast.walk(st0)):
+            chain = chain + (("jump", id(body)),)  # a block with jumps vouches for nothing below it
+        for st in body:
+            here = set()
+            for x in ast.walk(st) if not isinstance(st, (ast.If, ast.For, ast.While, ast.Try, ast.With)) else []:
+                if isinstance(x, ast.Subscript) and isinstance(x.value, ast.Name) and x.value.id in maps and isinstance(x.ctx, ast.Store):
+                    here.add((x.value.id, unparse(x.slice)))
+                if isinstance(x, ast.Call) and isinstance(x.func, ast.Attribute) and x.func.attr in ("append", "add", "extend", "update", "insert") and isinstance(x.func.value, ast.Subscript) and isinstance(x.func.value.value, ast.Name) and x.func.value.value.id in maps:
+                    here.add((x.func.value.value.id, unparse(x.func.value.slice)))  # A[k].append(...): creates the key of a defaultdict
+                if isinstance(x, ast.Call) and isinstance(x.func, ast.Attribute) and x.func.attr == "setdefault" and isinstance(x.func.value, ast.Name) and x.func.value.id in maps and x.args:
+                    here.add((x.func.value.id, unparse(x.args[0])))
+            for m, k in here:
+                fills[m].append((k, chain))
+            for f in ("body", "orelse", "finalbody"):
+                sub = getattr(st, f, None)
+                if isinstance(sub, list) and sub and isinstance(sub[0], ast.stmt):
+                    scan(sub, chain)
+            for h in getattr(st, "handlers", []) or []:
+                scan(h.body, chain)
+
+    scan(fn_node.body)
+
+    def keys_iter(it):
+        """name of the map whose keys drive the iteration, and whether items() is used"""
+        if isinstance(it, ast.Name) and it.id in maps:
+            return it.id
+        if isinstance(it, ast.Call) and isinstance(it.func, ast.Attribute) and it.func.attr in ("keys", "items") and isinstance(it.func.value, ast.Name) and it.func.value.id in maps and not it.args:
+            return it.func.value.id
+        if isinstance(it, ast.Call) and getattr(it.func, "id", None) in ("list", "sorted", "iter", "tuple") and it.args:
+            return keys_iter(it.args[0])
+        return None
+
+    def key_var(target, it):
+        if isinstance(target, ast.Name):
+            return target.id
+        if isinstance(target, (ast.Tuple, ast.List)) and target.elts and isinstance(target.elts[0], ast.Name) and isinstance(it, ast.Call) and getattr(it.func, "attr", None) == "items":
+            return target.elts[0].id
+        return None
+
+    def co_filled(b, a):
+        """every fill of b sits in a statement list that also fills a under the same key"""
+        # ... or in an enclosing statement list of the same iteration (one without continue / break)
+        def vouched(k, chain):
+            for ka, ca in fills[a]:
+                if ka == k and len(ca) <= len(chain) and chain[: len(ca)] == ca and not any(isinstance(c, tuple) for c in ca[-1:]):
+                    return True
+            return False
+        return bool(fills[b]) and all(vouched(k, chain) for k, chain in fills[b])
+
+    def judge(a, kv, region):
+        for x in ast.walk(region):
+            if isinstance(x, ast.Subscript) and isinstance(x.value, ast.Name) and x.value.id in maps and x.value.id != a and isinstance(x.slice, ast.Name) and x.slice.id == kv and isinstance(x.ctx, ast.Load):
+                b = x.value.id
+                if fills[b] and not co_filled(b, a):
+                    return x
+        return None
+
+    for n in ast.walk(fn_node):
+        if isinstance(n, (ast.ListComp, ast.SetComp, ast.GeneratorExp, ast.DictComp)):
+            for g in n.generators:
+                a = keys_iter(g.iter)
+                kv = key_var(g.target, g.iter) if a else None
+                if a and kv:
+                    region = ast.Tuple(elts=([n.key, n.value] if isinstance(n, ast.DictComp) else [n.elt]) + list(g.ifs), ctx=ast.Load())
+                    hit = judge(a, kv, region)
+                    if hit is not None:
+                        yield hit
+        elif isinstance(n, ast.For):
+            a = keys_iter(n.iter)
+            kv = key_var(n.target, n.iter) if a else None
+            if a and kv:
+                for st in n.body:
+                    hit = judge(a, kv, st)
+                    if hit is not None:
+                        yield hit
+                        break
